@@ -226,10 +226,10 @@ def isect_nontrivial(c):
 # ------------------------------------------------------------------------------------------- tangent / polar / dual
 @st.composite
 def tpd_case(draw, tier="quick"):
-    what = draw(st.sampled_from(["tangent_at", "tangent_from_outside", "polar", "dual_generic", "dual_class", "is_tangent_class", "tangency_after_move"]))
+    what = draw(st.sampled_from(["tangent_at", "tangent_from_outside", "polar", "dual_generic", "dual_class", "is_tangent_class", "tangency_after_move", "complex_tangent_class"]))
     d = 2 if what in ("tangent_from_outside", "polar") else draw(st.sampled_from([2, 3]))
     return {"d": d, "what": what, "sig": draw(st.sampled_from(SIGS[d][:1] + SIGS[d][2:] if d == 2 else SIGS[d][:2])), "n": draw(Z.params(9)), "i": draw(st.integers(0, 5)),
-            "p": draw(C.hpoint(d, 5)), "q": draw(C.hpoint(d, 5)), "cls": draw(st.sampled_from(["Circle", "Sphere2", "Sphere3"] if what in ("is_tangent_class", "tangency_after_move") else ["Quadric", "Conic", "Circle", "Ellipse", "Sphere2", "Sphere3", "QuadricCollection"])),
+            "p": draw(C.hpoint(d, 5)), "q": draw(C.hpoint(d, 5)), "cls": draw(st.sampled_from(["Circle", "Sphere2", "Sphere3"] if what in ("is_tangent_class", "tangency_after_move", "complex_tangent_class") else ["Quadric", "Conic", "Circle", "Ellipse", "Sphere2", "Sphere3", "QuadricCollection"])),
             "c": [draw(C.ints(6)) for _ in range(3)], "r": draw(st.sampled_from([1, 2, 3, 5, 0.5, 0.125, 0.1, 0.0625])), "u": draw(st.integers(0, len(UNIT) - 1)), "truth": draw(st.booleans()), "s": draw(C.scale()), "centre": draw(st.sampled_from([False, False, True]))}
 
 
@@ -434,6 +434,43 @@ def run_tpd(c):
             ck.add(f)
         else:
             ck.check(C.peq_all(dd.array, moved.array, 2, 1e-7), f"after-move:{name}:dual-involution")
+        return ck.result()
+    if what == "complex_tangent_class":
+        # complex points of a circle / sphere: centre + r (a, i b, ...) with a^2 - b^2 = 1 (a = 5/3, b = 4/3 and a = 13/5, b = 12/5);
+        # the tangent there is a complex hyperplane, contains the point and is tangent; the join of two such points is not
+        if name not in ("Circle", "Sphere2", "Sphere3"):
+            raise Skip("round classes only")
+        cc = ctr[:dim]
+        ab = [(5 / 3, 4 / 3), (13 / 5, 12 / 5), (5 / 4, -3 / 4)]
+        (a1, b1), (a2, b2) = ab[c["u"] % 3], ab[(c["u"] + 1) % 3]
+        e1 = np.zeros(dim, complex)
+        e2 = np.zeros(dim, complex)
+        e1[0], e1[1] = a1, 1j * b1
+        e2[0], e2[dim - 1] = a2, 1j * b2
+        p1 = np.append(cc + r * e1, 1.0) * C.scale_value(c["s"])
+        p2 = np.append(cc + r * e2, 1.0)
+        on, f = call(f"contains:{name}:complex-point", Q.contains, Point(p1))
+        if f:
+            return [f]
+        if not ck.check(bool(on), f"contains:{name}:complex-point-of-the-locus", p1.tolist()):
+            return ck.result()
+        T, f = call(f"tangent:{name}:at-complex-point", Q.tangent, Point(p1))
+        if f:
+            return [f]
+        ck.check(bool(T.contains(Point(p1))), f"tangent:{name}:at-complex-point:contains-the-point")
+        rr, f = call(f"is_tangent:{name}:complex-hyperplane", Q.is_tangent, T)
+        if f:
+            ck.add(f)
+        else:
+            ck.check(bool(rr), f"is_tangent:{name}:tangent-at-a-complex-point", np.asarray(T.array).tolist())
+        if dim == 2:
+            sec, f = call("join", G.join, Point(p1), Point(p2))
+            if f is None:
+                rr, f = call(f"is_tangent:{name}:complex-secant", Q.is_tangent, sec)
+                if f:
+                    ck.add(f)
+                else:
+                    ck.check(not bool(rr), f"is_tangent:{name}:complex-secant-is-not-tangent", np.asarray(sec.array).tolist())
         return ck.result()
     if what == "is_tangent_class":
         if name not in ("Circle", "Sphere2", "Sphere3"):
